@@ -23,6 +23,7 @@ type AssertClause struct {
 	Before bool
 	Each   bool // before-each: at every innermost statement containing the fragment
 	Text   string
+	Assume bool // "assume @label after|before <fragment> :: expr": assumed at that point, not proved (listed in the evidence)
 }
 
 type LoopContract struct {
@@ -60,6 +61,7 @@ type Contract struct {
 	GhostSets     []string       // "name = expr": ghost counter updates performed by a call to this function
 	DynPreserves  []string       // places assumed unchanged by calls through function values made by this function (listed in the evidence)
 	Lemmas        []string       // ghost lemma calls instantiated before the postconditions are checked
+	SplitConds    [][2]string    // "splitcond at K :: cond" (value of the split expression, condition)
 	Asserts       []AssertClause // "assert @label after <source fragment> :: expr": proof obligation after the first statement containing the fragment
 	LoopInv       []Clause       // default invariants for every for-loop without own contract
 	LoopDec       []string       // default decreases for every for-loop without own contract
@@ -86,7 +88,7 @@ var clauseKeywords = map[string]bool{
 	"serves": true, "requires": true, "ensures": true, "modifies": true, "decreases": true,
 	"loop": true, "flag": true, "pure": true, "trusted": true, "inline": true, "opaque": true,
 	"nopanic": true, "maypanic": true, "assume-safety": true, "dyncalls-pure": true, "functional": true, "unroll": true, "abstract": true, "allocates": true, "replaytext": true, "wrap": true, "overflow": true, "norac": true, "stages": true,
-	"split": true, "assume-unreachable": true, "ghostset": true, "assumes": true, "assumepre": true, "lemma": true, "assert": true, "dyncall-preserves": true, "assumed-ensures": true, "except": true, "loopinvariant": true, "loopdecreases": true, "notemplate": true,
+	"split": true, "assume-unreachable": true, "ghostset": true, "assumes": true, "assumepre": true, "lemma": true, "assert": true, "assume": true, "splitcond": true, "dyncall-preserves": true, "assumed-ensures": true, "except": true, "loopinvariant": true, "loopdecreases": true, "notemplate": true,
 }
 
 // parseContracts reads all /*@ ... @*/ blocks of a contracts file.
@@ -206,7 +208,15 @@ func parseBlock(body string) (*Contract, error) {
 			}
 		case "lemma":
 			c.Lemmas = append(c.Lemmas, rest)
-		case "assert":
+		case "splitcond":
+			// "splitcond at K :: cond": for the value K of the split expression, verify once with cond and once with its negation
+			body := strings.TrimSpace(strings.TrimPrefix(rest, "at"))
+			k := strings.Index(body, " :: ")
+			if !strings.HasPrefix(rest, "at") || k < 0 {
+				return nil, fmt.Errorf("bad splitcond clause %q (want: splitcond at <value> :: cond)", rest)
+			}
+			c.SplitConds = append(c.SplitConds, [2]string{strings.TrimSpace(body[:k]), strings.TrimSpace(body[k+4:])})
+		case "assert", "assume":
 			cl := mkClause(rest, len(c.Asserts)+1)
 			before := strings.HasPrefix(cl.Text, "before")
 			each := strings.HasPrefix(cl.Text, "before-each")
@@ -215,7 +225,7 @@ func parseBlock(body string) (*Contract, error) {
 			if !(strings.HasPrefix(cl.Text, "after") || before) || k < 0 {
 				return nil, fmt.Errorf("bad assert clause %q (want: assert @label after|before <fragment> :: expr)", rest)
 			}
-			c.Asserts = append(c.Asserts, AssertClause{Label: cl.Label, After: strings.TrimSpace(body[:k]), Before: before, Each: each, Text: strings.TrimSpace(body[k+4:])})
+			c.Asserts = append(c.Asserts, AssertClause{Label: cl.Label, After: strings.TrimSpace(body[:k]), Before: before, Each: each, Text: strings.TrimSpace(body[k+4:]), Assume: kw == "assume"})
 		case "except":
 			for _, e := range strings.Split(rest, ",") {
 				if e = strings.TrimSpace(e); e != "" {
